@@ -1424,20 +1424,25 @@ async fn hostile_part(ctx: &Ctx) {
     let stop = Arc::new(std::sync::atomic::AtomicBool::new(false));
     let bound = Duration::from_secs(8);
 
-    // --- probe: valid requests, each must be answered correctly within the bound
-    let probe = async {
+    // --- probes: valid requests, one loop per transport; each request must be answered correctly within the bound.
+    // The wedge rule is kept per transport: a TCP request that goes unanswered is not forgiven because an HTTP request
+    // (another accept loop) was answered in between, and vice versa.
+    let (clients_r, wow_r, newest_r, products_r, stop_r) = (&clients, &wow, &wow_newest, &products, &stop);
+    let probe = move |transport: &'static str| async move {
         let mut n = 0u64;
         let mut worst = Duration::ZERO;
         let mut consecutive_misses = 0u32;
-        while !stop.load(std::sync::atomic::Ordering::SeqCst) {
-            let which = n % 4;
+        while !stop_r.load(std::sync::atomic::Ordering::SeqCst) {
+            let which = n % 3;
             let t0 = Instant::now();
             let fut = async {
-                match which {
-                    0 => clients.ribbit.query("v1/products/wow/versions").await.map(|d| judge_product(&d, "versions", &wow, &wow_newest).is_ok()),
-                    1 => clients.ribbit.query("v2/products/wow/cdns").await.map(|d| judge_product(&d, "cdns", &wow, &wow_newest).is_ok()),
-                    2 => clients.ribbit.query("v1/summary").await.map(|d| judge_summary(&d, &products).is_ok()),
-                    _ => clients.tact.query("v1/products/wow/bgdl").await.map(|d| judge_product(&d, "bgdl", &wow, &wow_newest).is_ok()),
+                match (transport, which) {
+                    ("tcp", 0) => clients_r.ribbit.query("v1/products/wow/versions").await.map(|d| judge_product(&d, "versions", wow_r, newest_r).is_ok()),
+                    ("tcp", 1) => clients_r.ribbit.query("v2/products/wow/cdns").await.map(|d| judge_product(&d, "cdns", wow_r, newest_r).is_ok()),
+                    ("tcp", _) => clients_r.ribbit.query("v1/summary").await.map(|d| judge_summary(&d, products_r).is_ok()),
+                    (_, 0) => clients_r.tact.query("v1/products/wow/bgdl").await.map(|d| judge_product(&d, "bgdl", wow_r, newest_r).is_ok()),
+                    (_, 1) => clients_r.tact.query("v1/products/wow/versions").await.map(|d| judge_product(&d, "versions", wow_r, newest_r).is_ok()),
+                    (_, _) => clients_r.tact.query("v1/products/wow/cdns").await.map(|d| judge_product(&d, "cdns", wow_r, newest_r).is_ok()),
                 }
             };
             let r = tokio::time::timeout(bound, fut).await;
@@ -1448,23 +1453,24 @@ async fn hostile_part(ctx: &Ctx) {
                 Ok(Ok(true)) => {
                     consecutive_misses = 0;
                     ctx.obs("hostile.probe.answered-correctly", 1);
+                    ctx.obs(&format!("hostile.probe.{transport}.answered-correctly"), 1);
                 }
                 Ok(Ok(false)) => {
-                    ctx.violation("C15|hostile|probe|valid-request-answered-with-wrong-rows-under-hostile-load", "probe client got rows that differ from the database while hostile clients were connected", json!({"probe_kind": which}));
+                    ctx.violation("C15|hostile|probe|valid-request-answered-with-wrong-rows-under-hostile-load", "probe client got rows that differ from the database while hostile clients were connected", json!({"transport": transport, "probe_kind": which}));
                 }
                 Ok(Err(e)) => {
                     consecutive_misses += 1;
-                    ctx.obs(&format!("hostile.probe.error.{}", err_class(&e)), 1);
+                    ctx.obs(&format!("hostile.probe.{transport}.error.{}", err_class(&e)), 1);
                     if consecutive_misses >= 3 {
-                        ctx.violation("C15|hostile|probe|valid-request-fails-persistently-under-hostile-load", "three consecutive valid probe requests failed while hostile clients were connected", json!({"probe_kind": which, "last_error": e.to_string()}));
+                        ctx.violation(&format!("C15|hostile|probe|{transport}|valid-request-fails-persistently-under-hostile-load"), "three consecutive valid probe requests over one transport failed while hostile clients were connected", json!({"transport": transport, "probe_kind": which, "last_error": e.to_string()}));
                         consecutive_misses = 0;
                     }
                 }
                 Err(_) => {
                     consecutive_misses += 1;
-                    ctx.obs("hostile.probe.not-answered-within-8s", 1);
+                    ctx.obs(&format!("hostile.probe.{transport}.not-answered-within-8s"), 1);
                     if consecutive_misses >= 3 {
-                        ctx.violation("C15|hostile|probe|server-wedged|three-consecutive-valid-requests-unanswered-for-8s", "the server stopped answering a valid client while hostile clients were connected", json!({"probe_kind": which}));
+                        ctx.violation(&format!("C15|hostile|probe|{transport}|server-wedged|three-consecutive-valid-requests-unanswered-for-8s"), "the server stopped answering valid clients of one transport while hostile clients were connected", json!({"transport": transport, "probe_kind": which}));
                         consecutive_misses = 0;
                     }
                 }
@@ -1518,7 +1524,12 @@ async fn hostile_part(ctx: &Ctx) {
                     let _ = s.write_all(&payload).await;
                     let mut tmp = [0u8; 1024];
                     let mut got = 0usize;
-                    let hold = Duration::from_secs(13);
+                    // A never-terminated TCP connection is held for longer than the probes' wedge rule needs to fire
+                    // (three bounds in a row + margin): a server that stops answering others for as long as such a client
+                    // stays connected is then seen as wedged, not as slow. The server's own read time-out ends these
+                    // connections much earlier, so the long hold costs a well-behaved server nothing. The HTTP ones are
+                    // not closed by the server at all and keep the shorter hold (budget).
+                    let hold = if http { Duration::from_secs(13) } else { bound * 3 + Duration::from_secs(6) };
                     let mut closed = false;
                     while t0.elapsed() < hold {
                         if trickle {
@@ -1538,7 +1549,7 @@ async fn hostile_part(ctx: &Ctx) {
                         ctx.obs(&format!("hostile.{name}.closed-by-server"), 1);
                         ctx.obs_max(&format!("hostile.{name}.closed-after-ms(max)"), t0.elapsed().as_millis() as u64);
                     } else {
-                        ctx.obs(&format!("hostile.{name}.still-open-after-13s"), 1);
+                        ctx.obs(&format!("hostile.{name}.still-open-after-{}s", hold.as_secs()), 1);
                     }
                     if got > 0 {
                         ctx.obs(&format!("hostile.{name}.reply-bytes"), got as u64);
@@ -1613,11 +1624,15 @@ async fn hostile_part(ctx: &Ctx) {
         stop.store(true, std::sync::atomic::Ordering::SeqCst);
     };
 
-    let ((probes, worst), ()) = futures::join!(probe, hostile);
-    ctx.obs("hostile.probe.requests", probes);
-    ctx.obs_max("hostile.probe.worst-latency-ms", worst.as_millis() as u64);
-    if probes < 20 {
-        ctx.inconclusive("fewer than 20 probe requests completed during the hostile phase");
+    let ((probes_tcp, worst_tcp), (probes_http, worst_http), ()) = futures::join!(probe("tcp"), probe("http"), hostile);
+    ctx.obs("hostile.probe.requests", probes_tcp + probes_http);
+    ctx.obs("hostile.probe.tcp.requests", probes_tcp);
+    ctx.obs("hostile.probe.http.requests", probes_http);
+    ctx.obs_max("hostile.probe.worst-latency-ms", worst_tcp.max(worst_http).as_millis() as u64);
+    ctx.obs_max("hostile.probe.tcp.worst-latency-ms", worst_tcp.as_millis() as u64);
+    ctx.obs_max("hostile.probe.http.worst-latency-ms", worst_http.as_millis() as u64);
+    if probes_tcp < 20 || probes_http < 20 {
+        ctx.inconclusive("fewer than 20 probe requests per transport completed during the hostile phase");
     }
     // after the storm: the server must still answer, and its accept loops must be alive
     let after = tokio::time::timeout(Duration::from_secs(20), clients.ribbit.query("v1/products/wow/versions")).await;
